@@ -22,6 +22,7 @@ MANIFEST_ENTRY = {
 
 def tasks(tier, seed):
     return [
+        func("bt.core.StrategyBase.flatten"),
         func("bt.core.StrategyBase.rebalance"),
         func("bt.core.SecurityBase.allocate"),
         *UPDATE_ALL,
